@@ -239,6 +239,7 @@ def describe_offenders(cb, cut, ins):
 
 # --------------------------------------------------------------------------------------------
 def r5_path_construction(ctx, F, rule='C03-R5'):
+    import roles
     PATH = 'checker::path::Path'
     allowed = ('checker::path::Path::<State, Action>::from_fingerprints',
                'checker::path::Path::<State, Action>::from_actions')
@@ -276,13 +277,13 @@ def r5_path_construction(ctx, F, rule='C03-R5'):
             b = F.body('<%s<M> as checker::Checker<M>>::discoveries' % pat)
             bs = [b] + F.closures_under(b)
             via = [c for x in bs for c in x.calls
-                   if c.is_('Path::from_fingerprints') or c.short.endswith('::reconstruct_path')]
+                   if c.is_('Path::from_fingerprints') or roles.is_reconstruct_path_call(F, c)]
             ctx.check(bool(via), rule, 'discoveries-via-reexecution', b,
                       good='discoveries() maps fingerprints through %s' % (via[0].short if via else ''),
                       bad='%s::discoveries() does not rebuild paths by re-executing the model' % pat)
     for modname in ('bfs', 'on_demand'):
         with ctx.rule(rule, modname):
-            b = F.body('checker::%s::reconstruct_path' % modname)
+            b = roles.reconstruct_path(F, modname)
             ctx.check(len(b.calls_to('Path::from_fingerprints')) == 1, rule, 'reconstruct-via-from_fingerprints', b,
                       good='reconstruct_path ends in Path::from_fingerprints',
                       bad='reconstruct_path does not end in Path::from_fingerprints')
